@@ -2201,9 +2201,41 @@ def gen_c07_deep_lp(r):
     return {"knobs": dict(DEFAULT_KNOBS), "ops": ops}
 
 
+def gen_c07_param(r):
+    """The objective carries Parameters; the solver peer answers every solve with the SAME point
+    (an optimum pinned by bounds does that) while the parameters move in between: the objective
+    value reported each time must be the objective as currently parameterised at that point."""
+    from .world import DEFAULT_KNOBS
+
+    sp, _ = gen_c12_pool(r, deep=0)
+    for g in [e for e in sp["exprs"] if e.startswith("g")]:
+        del sp["exprs"][g]
+    sp["expr_order"] = sorted(sp["exprs"])
+    ops = [["new_model", 0, sp], [r.choice(["minimize", "maximize"]), 0, r.choice([o for o in ("o0", "o1", "o1", "o2", "o4", "o5", "on", "opw") if o in sp["exprs"]])]]
+    names, pts = classify_points(r, _state_after(ops), 20)
+    if not pts["feas"]:
+        return gen_c06(r, "quick", c07=True)
+    x = r.choice(pts["feas"])
+    method = r.choice(["SLSQP", "L-BFGS-B", "trust-constr", "SLSQP"])
+
+    def solve():
+        peer = {"mode": "scripted", "entry": 0, "cls": "gen-success", "success": True, "status": 0,
+                "message": "Optimization terminated successfully.", "x": x, "xkind": "feas"}
+        return ["solve", 0, {"method": method, "peers": [peer]}]
+
+    ops.append(solve())
+    for _ in range(r.randint(1, 3)):
+        for _ in range(r.choice([1, 2])):
+            ops.append(gen_param_op(r, sp))
+        ops.append(solve())
+    return {"knobs": dict(DEFAULT_KNOBS), "ops": ops}
+
+
 def gen_c07(r, tier="quick"):
     if r.random() < 0.02:
         return gen_c07_deep_lp(r)
+    if r.random() < 0.05:
+        return gen_c07_param(r)
     return gen_c06(r, tier, c07=True)
 
 
